@@ -1928,6 +1928,7 @@ func (pid *PID) runTurn(w *worker) {
 		return
 	}
 
+	verifTurnEnter(pid)
 	now := time.Now()
 	budget := w.dispatcher.throughput
 	for range budget {
@@ -1937,13 +1938,16 @@ func (pid *PID) runTurn(w *worker) {
 		}
 		received := pid.mailbox.Dequeue()
 		if received == nil {
+			verifTurnExit(pid)
 			if pid.finishOrReclaim() {
 				return
 			}
+			verifTurnEnter(pid)
 			continue
 		}
 		pid.dispatchOne(received, now)
 	}
+	verifTurnExit(pid)
 	pid.schedState.YieldToScheduled()
 	w.reschedule(pid)
 }
